@@ -197,6 +197,17 @@ private:
     }
     //evaluate in place
     proxy.compute(detail::vector_wrapper<WrapperType>{dim,components});
+    //an operand whose storage was taken above is left empty, as after move construction
+    if(proxy.mayStealArg1() && !proxy.suv1.isinit && !proxy.suv1.isinit_d && proxy.suv1.components==components){
+      const_cast<SU_vector&>(proxy.suv1).dim=0;
+      const_cast<SU_vector&>(proxy.suv1).size=0;
+      const_cast<SU_vector&>(proxy.suv1).components=nullptr;
+    }
+    if(proxy.mayStealArg2() && !proxy.suv2.isinit && !proxy.suv2.isinit_d && proxy.suv2.components==components){
+      const_cast<SU_vector&>(proxy.suv2).dim=0;
+      const_cast<SU_vector&>(proxy.suv2).size=0;
+      const_cast<SU_vector&>(proxy.suv2).components=nullptr;
+    }
     return(*this);
   }
   
@@ -325,6 +336,12 @@ public:
     if(components==proxy.suv1.components && proxy.suv1.isinit)
       const_cast<SU_vector&>(proxy.suv1).isinit=false; //complete the theft
     proxy.compute(detail::vector_wrapper<detail::AssignWrapper>{dim,components});
+    //an operand whose storage was taken above is left empty, as after move construction
+    if(proxy.mayStealArg1() && !proxy.suv1.isinit && !proxy.suv1.isinit_d && proxy.suv1.components==components){
+      const_cast<SU_vector&>(proxy.suv1).dim=0;
+      const_cast<SU_vector&>(proxy.suv1).size=0;
+      const_cast<SU_vector&>(proxy.suv1).components=nullptr;
+    }
   }
 
   ///\brief Construct an SU_vector from a GSL matrix
